@@ -28,6 +28,18 @@ def _digests(props, indices, base):
             case["seed"] = seed
             res = batch.run_one(check, case)
             out[f"{prop}:{index}"] = res["digest"] + ":" + str(res.get("steps"))
+        if prop in ("C01", "C16"):
+            # the rarer fault kinds must be in the sample too: the first cases of this check that inject stalled threads
+            found, index = 0, 1000
+            while found < 3 and index < 1400:
+                seed = batch.derive_seed(base, prop, index)
+                case = check.gen(random.Random(seed), "quick", index)
+                if ((case.get("cfg") or {}).get("sched") or {}).get("stall"):
+                    case["seed"] = seed
+                    res = batch.run_one(check, case)
+                    out[f"{prop}:stall:{index}"] = res["digest"] + ":" + str(res.get("steps"))
+                    found += 1
+                index += 1
     return out
 
 
